@@ -226,10 +226,10 @@ Section Local.
     match o with OSpider _ q _ | OH q | OI q => Nat.eqb q 0 | OPhase _ | OPower _ => true | _ => false end.
   Definition quiet_op (o : op nat) : bool :=
     match o with
-    | OSpider _ q _ | OH q | OI q | OReset q _ => Nat.eqb q 0
-    | OMeas q p _ _ => Nat.eqb q 0 && match Qcompare 0 p with Lt => false | _ => true end
+    | OSpider _ q _ | OH q | OI q | OReset q _ | OMeas q _ _ _ => Nat.eqb q 0
+    | OErr _ q rel false => Nat.eqb q 0 && Z.leb 0 rel && Z.leb rel 1
     | OIfLane q body => Nat.eqb q 0 && forallb simple_op body
-    | OPhase _ | OPower _ => true
+    | OPhase _ | OPower _ | OChan _ | OBumpErr _ => true
     | _ => false
     end.
   Definition lsim (dr ds de dc : nat) (l l' : lst) : Prop :=
@@ -248,8 +248,8 @@ Section Local.
   Proof. intro H. lsim_destruct H. unfold lsetcol. lsim_split; try assumption. reflexivity. Qed.
   Lemma lsim_setk dr ds de dc l l' c : lsim dr ds de dc l l' -> lsim dr ds de dc (lsetk l (c * lk l)) (lsetk l' (c * lk l')).
   Proof. intro H. lsim_destruct H. unfold lsetk. lsim_split; try assumption. rewrite Sk. reflexivity. Qed.
-  Lemma lensure_cnt l : lnr (lensure l) = lnr l /\ lns (lensure l) = lns l.
-  Proof. unfold lensure. destruct (lex l); split; reflexivity. Qed.
+  Lemma lensure_cnt l : lnr (lensure l) = lnr l /\ lns (lensure l) = lns l /\ lne (lensure l) = lne l.
+  Proof. unfold lensure. destruct (lex l); repeat split; reflexivity. Qed.
 
   (* the simple (unitary) primitives: no bits, no counters, any fuel *)
   Lemma simple_sim dr ds de dc f f' b b' o l l' : simple_op o = true -> lsim dr ds de dc l l' ->
@@ -261,10 +261,11 @@ Section Local.
     all: try (apply lsim_ensure; exact H).
     all: try (apply lsim_setk; exact H).
   Qed.
-  Lemma simple_cnt f b o l : simple_op o = true -> lnr (lstep f b l o) = lnr l /\ lns (lstep f b l o) = lns l.
+  Lemma simple_cnt f b o l : simple_op o = true ->
+    lnr (lstep f b l o) = lnr l /\ lns (lstep f b l o) = lns l /\ lne (lstep f b l o) = lne l.
   Proof.
     intro Hs. destruct o as [c q0 e | | q0 | | | q0 | | | e | k | | | | |]; try discriminate Hs; destruct f; cbn [lstep];
-      unfold lsetcol, lapp, lsetk; cbn [lnr lns]; try apply lensure_cnt; split; reflexivity.
+      unfold lsetcol, lapp, lsetk; cbn [lnr lns lne]; try apply lensure_cnt; repeat split; reflexivity.
   Qed.
   Lemma simple_fold_sim dr ds de dc f f' b b' body : forallb simple_op body = true -> forall l l', lsim dr ds de dc l l' ->
     lsim dr ds de dc (fold_left (lstep f b) body l) (fold_left (lstep f' b') body l').
@@ -273,24 +274,29 @@ Section Local.
     cbn [forallb] in Hs. apply andb_true_iff in Hs. destruct Hs as [H1 H2]. apply IH; [exact H2|]. apply simple_sim; assumption.
   Qed.
   Lemma simple_fold_cnt f b body : forallb simple_op body = true -> forall l,
-    lnr (fold_left (lstep f b) body l) = lnr l /\ lns (fold_left (lstep f b) body l) = lns l.
+    lnr (fold_left (lstep f b) body l) = lnr l /\ lns (fold_left (lstep f b) body l) = lns l /\ lne (fold_left (lstep f b) body l) = lne l.
   Proof.
-    induction body as [|o body IH]; intros Hs l; cbn [fold_left]; [split; reflexivity|].
+    induction body as [|o body IH]; intros Hs l; cbn [fold_left]; [repeat split; reflexivity|].
     cbn [forallb] in Hs. apply andb_true_iff in Hs. destruct Hs as [H1 H2].
-    destruct (IH H2 (lstep f b l o)) as [A1 A2]. destruct (simple_cnt f b o l H1) as [B1 B2]. rewrite A1, A2, B1, B2. split; reflexivity.
+    destruct (IH H2 (lstep f b l o)) as (A1 & A2 & A3). destruct (simple_cnt f b o l H1) as (B1 & B2 & B3). rewrite A1, A2, A3, B1, B2, B3. repeat split; reflexivity.
   Qed.
 
   Lemma ldo_meas_cnt b l (silent : bool) :
-    lnr (ldo_meas b l silent) = (if silent then lnr l else S (lnr l)) /\ lns (ldo_meas b l silent) = (if silent then S (lns l) else lns l).
+    lnr (ldo_meas b l silent) = (if silent then lnr l else S (lnr l)) /\ lns (ldo_meas b l silent) = (if silent then S (lns l) else lns l) /\
+    lne (ldo_meas b l silent) = lne l.
   Proof.
-    unfold ldo_meas. destruct (lensure_cnt l) as [A1 A2]. destruct silent; unfold lcnt, lsetcol, lsetk, lapp; cbn [lnr lns]; rewrite ?A1, ?A2; split; reflexivity.
+    unfold ldo_meas. destruct (lensure_cnt l) as (A1 & A2 & A3). destruct silent; unfold lcnt, lsetcol, lsetk, lapp; cbn [lnr lns lne]; rewrite ?A1, ?A2, ?A3; repeat split; reflexivity.
+  Qed.
+  Lemma ldo_err_cnt b l c idx : lnr (ldo_err b l c idx) = lnr l /\ lns (ldo_err b l c idx) = lns l /\ lne (ldo_err b l c idx) = lne l.
+  Proof.
+    unfold ldo_err. destruct (lensure_cnt l) as (A1 & A2 & A3). destruct (bit (berr b) idx); unfold lsetcol, lapp; cbn [lnr lns lne]; rewrite ?A1, ?A2, ?A3; repeat split; reflexivity.
   Qed.
   Lemma lsim_do_meas dr ds de dc b b' l l' (silent : bool) : lsim dr ds de dc l l' ->
     (if silent then bit (bsil b) (lns l' + ds) = bit (bsil b') (lns l') else bit (brec b) (lnr l' + dr) = bit (brec b') (lnr l')) ->
     lsim dr ds de dc (ldo_meas b l silent) (ldo_meas b' l' silent).
   Proof.
     intros H Hb. unfold ldo_meas. pose proof (lsim_ensure _ _ _ _ _ _ H) as He.
-    destruct (lensure_cnt l') as [A1 A2].
+    destruct (lensure_cnt l') as (A1 & A2 & A3).
     set (m := lensure l) in *. set (m' := lensure l') in *.
     pose proof He as He'. lsim_destruct He'. rewrite Snr, Sns, A1, A2. clear Sk SM Sex Scol Snr Sns Sne Snc.
     assert (Hr : (if silent then bit (bsil b) (lns l' + ds) else bit (brec b) (lnr l' + dr)) = (if silent then bit (bsil b') (lns l') else bit (brec b') (lnr l')))
@@ -301,66 +307,108 @@ Section Local.
     lsim_destruct H1. cbn [lnr lns lne lnc lsetcol lsetk lapp] in *.
     destruct silent; unfold lcnt; lsim_split; try assumption; cbn [lsetcol lsetk lapp lnr lns lne lnc lk lM lex lcol] in *; try assumption; lia.
   Qed.
-
+  Lemma lsim_do_err dr ds de dc b b' l l' c idx idx' : lsim dr ds de dc l l' -> bit (berr b) idx = bit (berr b') idx' ->
+    lsim dr ds de dc (ldo_err b l c idx) (ldo_err b' l' c idx').
+  Proof.
+    intros H Hb. unfold ldo_err. rewrite Hb. apply lsim_setcol. destruct (bit (berr b') idx'); [apply lsim_app|]; apply lsim_ensure; exact H.
+  Qed.
   Lemma lsim_setex dr ds de dc l l' : lsim dr ds de dc l l' -> lsim dr ds de dc (lsetex l) (lsetex l').
   Proof. intro H. lsim_destruct H. unfold lsetex. lsim_split; try assumption. reflexivity. Qed.
+  Lemma lsim_cnt_err dr ds de dc l l' k : lsim dr ds de dc l l' ->
+    lsim dr ds de dc (lcnt l (lnr l) (lns l) (lne l + k)%nat (lnc l)) (lcnt l' (lnr l') (lns l') (lne l' + k)%nat (lnc l')).
+  Proof. intro H. lsim_destruct H. unfold lcnt. lsim_split; try assumption. lia. Qed.
 
   Definition agree_rec (b b' : bits) (dr Wr : nat) : Prop := forall i, (i < Wr)%nat -> bit (brec b) (i + dr) = bit (brec b') i.
   Definition agree_sil (b b' : bits) (ds Ws : nat) : Prop := forall i, (i < Ws)%nat -> bit (bsil b) (i + ds) = bit (bsil b') i.
+  Definition agree_err (b b' : bits) (de We : nat) : Prop := forall i, (i < We)%nat -> bit (berr b) (i + de) = bit (berr b') i.
 
   Lemma quiet_cnt_mono f b o l : quiet_op o = true ->
-    (lnr l <= lnr (lstep (S f) b l o))%nat /\ (lns l <= lns (lstep (S f) b l o))%nat.
+    (lnr l <= lnr (lstep (S f) b l o))%nat /\ (lns l <= lns (lstep (S f) b l o))%nat /\ (lne l <= lne (lstep (S f) b l o))%nat.
   Proof.
-    intro Hq. destruct o as [c q0 e | | q0 | | | q0 | q0 p silent restore | q0 trace | e | k | | | | q0 body |]; try discriminate Hq.
-    all: try (match goal with |- context [lstep _ _ _ ?o] => destruct (simple_cnt (S f) b o l Hq) as [A1 A2] end; rewrite A1, A2; split; apply le_n).
-    - (* OMeas *) cbn [quiet_op] in Hq. apply andb_true_iff in Hq. destruct Hq as [_ Hp]. cbn [lstep].
-      destruct (Qcompare 0 p); try discriminate Hp; cbv zeta; destruct (ldo_meas_cnt b l silent) as [A1 A2]; rewrite A1, A2; destruct silent; split; lia.
-    - (* OReset *) cbn [lstep]. destruct (lex l); cbn [negb]; [|unfold lsetcol, lsetex; cbn [lnr lns]; split; apply le_n].
+    intro Hq. destruct o as [c q0 e | c q0 rel corr | q0 | | | q0 | q0 p silent restore | q0 trace | e | k | ch | k | | q0 body |]; try discriminate Hq.
+    all: try (match goal with |- context [lstep _ _ _ ?o] => destruct (simple_cnt (S f) b o l Hq) as (A1 & A2 & A3) end; rewrite A1, A2, A3; repeat split; apply le_n).
+    - (* OErr *) destruct corr; [discriminate Hq|]. cbn [lstep]. destruct (ldo_err_cnt b l c (lne l + Z.to_nat rel)) as (A1 & A2 & A3). rewrite A1, A2, A3. repeat split; apply le_n.
+    - (* OMeas *) cbn [lstep]. destruct (Qcompare 0 p); cbv zeta.
+      1,3: destruct (ldo_meas_cnt b l silent) as (A1 & A2 & A3); rewrite A1, A2, A3; destruct silent; repeat split; lia.
+      destruct (ldo_err_cnt b l CXc (lne l)) as (E1 & E2 & E3).
+      destruct (ldo_meas_cnt b (ldo_err b l CXc (lne l)) silent) as (A1 & A2 & A3).
+      set (m := ldo_meas b (ldo_err b l CXc (lne l)) silent) in *.
+      assert (G : lnr (if restore then ldo_err b m CXc (lne m) else m) = lnr m /\ lns (if restore then ldo_err b m CXc (lne m) else m) = lns m /\ lne (if restore then ldo_err b m CXc (lne m) else m) = lne m)
+        by (destruct restore; [apply ldo_err_cnt | repeat split; reflexivity]).
+      destruct G as (G1 & G2 & G3). unfold lcnt; cbn [lnr lns lne]. rewrite G1, G2, G3, A1, A2, A3, E1, E2, E3. destruct silent; repeat split; lia.
+    - (* OReset *) cbn [lstep]. destruct (lex l); cbn [negb]; [|unfold lsetcol, lsetex; cbn [lnr lns lne]; repeat split; apply le_n].
       cbv zeta. destruct trace.
-      + destruct (ldo_meas_cnt b l true) as [A1 A2]. destruct (lcol (ldo_meas b l true)); unfold lsetcol, lapp; cbn [lnr lns]; rewrite A1, A2; split; lia.
-      + destruct (lcol l); unfold lsetcol, lapp; cbn [lnr lns]; split; apply le_n.
+      + destruct (ldo_meas_cnt b l true) as (A1 & A2 & A3). destruct (lcol (ldo_meas b l true)); unfold lsetcol, lapp; cbn [lnr lns lne]; rewrite A1, A2, A3; repeat split; lia.
+      + destruct (lcol l); unfold lsetcol, lapp; cbn [lnr lns lne]; repeat split; apply le_n.
+    - (* OChan *) cbn [lstep]. repeat split; apply le_n.
+    - (* OBumpErr *) cbn [lstep]. unfold lcnt; cbn [lnr lns lne]. repeat split; lia.
     - (* OIfLane *) cbn [quiet_op] in Hq. apply andb_true_iff in Hq. destruct Hq as [_ Hb]. cbn [lstep].
-      destruct (lex l); [|split; apply le_n]. destruct (simple_fold_cnt f b body Hb l) as [A1 A2]. rewrite A1, A2. split; apply le_n.
+      destruct (lex l); [|repeat split; apply le_n]. destruct (simple_fold_cnt f b body Hb l) as (A1 & A2 & A3). rewrite A1, A2, A3. repeat split; apply le_n.
   Qed.
   Lemma quiet_run_mono f b ops : forallb quiet_op ops = true -> forall l,
-    (lnr l <= lnr (fold_left (lstep (S f) b) ops l))%nat /\ (lns l <= lns (fold_left (lstep (S f) b) ops l))%nat.
+    (lnr l <= lnr (fold_left (lstep (S f) b) ops l))%nat /\ (lns l <= lns (fold_left (lstep (S f) b) ops l))%nat /\ (lne l <= lne (fold_left (lstep (S f) b) ops l))%nat.
   Proof.
-    induction ops as [|o ops IH]; intros Hq l; cbn [fold_left]; [split; apply le_n|].
+    induction ops as [|o ops IH]; intros Hq l; cbn [fold_left]; [repeat split; apply le_n|].
     cbn [forallb] in Hq. apply andb_true_iff in Hq. destruct Hq as [H1 H2].
-    destruct (quiet_cnt_mono f b o l H1) as [A1 A2]. destruct (IH H2 (lstep (S f) b l o)) as [B1 B2]. split; lia.
+    destruct (quiet_cnt_mono f b o l H1) as (A1 & A2 & A3). destruct (IH H2 (lstep (S f) b l o)) as (B1 & B2 & B3). repeat split; lia.
   Qed.
 
-  Lemma quiet_step_sim dr ds de dc f b b' Wr Ws o l l' : lsim dr ds de dc l l' -> quiet_op o = true ->
-    agree_rec b b' dr Wr -> agree_sil b b' ds Ws ->
-    (lnr (lstep (S f) b' l' o) <= Wr)%nat -> (lns (lstep (S f) b' l' o) <= Ws)%nat ->
+  (* We: the error window.  A primitive reads error bits at offsets 0 or 1 above the current counter, hence the `+ 2` *)
+  Lemma quiet_step_sim dr ds de dc f b b' Wr Ws We o l l' : lsim dr ds de dc l l' -> quiet_op o = true ->
+    agree_rec b b' dr Wr -> agree_sil b b' ds Ws -> agree_err b b' de We ->
+    (lnr (lstep (S f) b' l' o) <= Wr)%nat -> (lns (lstep (S f) b' l' o) <= Ws)%nat -> (lne (lstep (S f) b' l' o) + 2 <= We)%nat ->
     lsim dr ds de dc (lstep (S f) b l o) (lstep (S f) b' l' o).
   Proof.
-    intros H Hq Hr Hs Br Bs.
-    destruct o as [c q0 e | | q0 | | | q0 | q0 p silent restore | q0 trace | e | k | | | | q0 body |]; try discriminate Hq.
+    intros H Hq Hr Hs He Br Bs Be. pose proof H as H'. lsim_destruct H'.
+    destruct o as [c q0 e | c q0 rel corr | q0 | | | q0 | q0 p silent restore | q0 trace | e | k | ch | k | | q0 body |]; try discriminate Hq.
     all: try (apply simple_sim; [exact Hq | exact H]).
-    - (* OMeas *) cbn [quiet_op] in Hq. apply andb_true_iff in Hq. destruct Hq as [_ Hp]. cbn [lstep] in *.
-      destruct (Qcompare 0 p); try discriminate Hp; cbv zeta in *; destruct (ldo_meas_cnt b' l' silent) as [A1 A2]; rewrite A1, A2 in *;
-        apply lsim_do_meas; try exact H; destruct silent;
-        cbv beta iota in Br, Bs; first [apply Hs; lia | apply Hr; lia].
-    - (* OReset *) pose proof H as H'. lsim_destruct H'. cbn [lstep] in *. rewrite Sex. destruct (lex l'); cbn [negb] in *; [|apply lsim_setcol, lsim_setex; exact H].
+    - (* OErr *) destruct corr; [discriminate Hq|]. cbn [quiet_op] in Hq. rewrite !andb_true_iff in Hq. destruct Hq as [[_ R0] R1]. apply Z.leb_le in R0, R1.
+      cbn [lstep] in *. destruct (ldo_err_cnt b' l' c (lne l' + Z.to_nat rel)) as (_ & _ & A3). rewrite A3 in Be.
+      apply lsim_do_err; [exact H|]. rewrite Sne. replace (lne l' + de + Z.to_nat rel)%nat with ((lne l' + Z.to_nat rel) + de)%nat by lia. apply He.
+      assert (Z.to_nat rel <= 1)%nat by lia. lia.
+    - (* OMeas *) cbn [lstep] in *. destruct (Qcompare 0 p); cbv zeta in *.
+      1,3: destruct (ldo_meas_cnt b' l' silent) as (A1 & A2 & A3); rewrite A1, A2 in *;
+        apply lsim_do_meas; try exact H; destruct silent; cbv beta iota in Br, Bs; first [apply Hs; lia | apply Hr; lia].
+      (* noisy *)
+      destruct (ldo_err_cnt b' l' CXc (lne l')) as (E1 & E2 & E3).
+      destruct (ldo_meas_cnt b' (ldo_err b' l' CXc (lne l')) silent) as (A1 & A2 & A3).
+      set (m' := ldo_meas b' (ldo_err b' l' CXc (lne l')) silent) in *.
+      assert (G : lnr (if restore then ldo_err b' m' CXc (lne m') else m') = lnr m' /\ lns (if restore then ldo_err b' m' CXc (lne m') else m') = lns m' /\ lne (if restore then ldo_err b' m' CXc (lne m') else m') = lne m')
+        by (destruct restore; [apply ldo_err_cnt | repeat split; reflexivity]).
+      destruct G as (G1 & G2 & G3). unfold lcnt in Br, Bs, Be; cbn [lnr lns lne] in Br, Bs, Be. rewrite G1 in Br. rewrite G2 in Bs. rewrite G3 in Be.
+      rewrite A1, E1 in Br. rewrite A2, E2 in Bs. rewrite A3, E3 in Be.
+      assert (H1 : lsim dr ds de dc (ldo_err b l CXc (lne l)) (ldo_err b' l' CXc (lne l'))).
+      { apply lsim_do_err; [exact H|]. rewrite Sne. apply He. lia. }
+      assert (H2 : lsim dr ds de dc (ldo_meas b (ldo_err b l CXc (lne l)) silent) m').
+      { apply lsim_do_meas; [exact H1|]. rewrite E1, E2. destruct silent; cbv beta iota in Br, Bs; [apply Hs | apply Hr]; lia. }
+      set (m := ldo_meas b (ldo_err b l CXc (lne l)) silent) in *.
+      assert (H3 : lsim dr ds de dc (if restore then ldo_err b m CXc (lne m) else m) (if restore then ldo_err b' m' CXc (lne m') else m')).
+      { destruct restore; [|exact H2]. apply lsim_do_err; [exact H2|]. destruct H2 as (_ & _ & _ & _ & _ & _ & Sne2 & _). rewrite Sne2, A3, E3. apply He. lia. }
+      set (u := if restore then _ else m) in *. set (u' := if restore then _ else m') in *.
+      pose proof H3 as H3'. destruct H3' as (Uk & UM & Uex & Ucol & Unr & Uns & Une & Unc).
+      unfold lcnt. lsim_split; try assumption. lia.
+    - (* OReset *) cbn [lstep] in *. rewrite Sex. destruct (lex l'); cbn [negb] in *; [|apply lsim_setcol, lsim_setex; exact H].
       cbv zeta in *.
       assert (H1 : lsim dr ds de dc (if trace then ldo_meas b l true else l) (if trace then ldo_meas b' l' true else l')).
       { destruct trace; [|exact H]. apply lsim_do_meas; [exact H|]. apply Hs.
-        destruct (ldo_meas_cnt b' l' true) as [A1 A2]. destruct (lcol (ldo_meas b' l' true)); unfold lsetcol, lapp in Bs; cbn [lns] in Bs; rewrite A2 in Bs; lia. }
+        destruct (ldo_meas_cnt b' l' true) as (A1 & A2 & A3). destruct (lcol (ldo_meas b' l' true)); unfold lsetcol, lapp in Bs; cbn [lns] in Bs; rewrite A2 in Bs; lia. }
       set (m := if trace then ldo_meas b l true else l) in *. set (m' := if trace then ldo_meas b' l' true else l') in *.
       pose proof H1 as H1'. destruct H1' as (_ & _ & _ & Scol1 & _). rewrite Scol1.
       apply lsim_setcol. destruct (lcol m'); apply lsim_app; exact H1.
-    - (* OIfLane *) cbn [quiet_op] in Hq. apply andb_true_iff in Hq. destruct Hq as [_ Hb]. pose proof H as H'. lsim_destruct H'. cbn [lstep]. rewrite Sex.
+    - (* OChan *) cbn [lstep]. exact H.
+    - (* OBumpErr *) cbn [lstep]. apply lsim_cnt_err. exact H.
+    - (* OIfLane *) cbn [quiet_op] in Hq. apply andb_true_iff in Hq. destruct Hq as [_ Hb]. cbn [lstep]. rewrite Sex.
       destruct (lex l'); [|exact H]. apply simple_fold_sim; assumption.
   Qed.
-  Theorem quiet_run_sim dr ds de dc f b b' Wr Ws ops : forallb quiet_op ops = true ->
-    agree_rec b b' dr Wr -> agree_sil b b' ds Ws -> forall l l', lsim dr ds de dc l l' ->
+  Theorem quiet_run_sim dr ds de dc f b b' Wr Ws We ops : forallb quiet_op ops = true ->
+    agree_rec b b' dr Wr -> agree_sil b b' ds Ws -> agree_err b b' de We -> forall l l', lsim dr ds de dc l l' ->
     (lnr (fold_left (lstep (S f) b') ops l') <= Wr)%nat -> (lns (fold_left (lstep (S f) b') ops l') <= Ws)%nat ->
+    (lne (fold_left (lstep (S f) b') ops l') + 2 <= We)%nat ->
     lsim dr ds de dc (fold_left (lstep (S f) b) ops l) (fold_left (lstep (S f) b') ops l').
   Proof.
-    intros Hq Hr Hs. induction ops as [|o ops IH]; intros l l' H Br Bs; cbn [fold_left] in *; [exact H|].
+    intros Hq Hr Hs He. induction ops as [|o ops IH]; intros l l' H Br Bs Be; cbn [fold_left] in *; [exact H|].
     cbn [forallb] in Hq. apply andb_true_iff in Hq. destruct Hq as [H1 H2].
-    destruct (quiet_run_mono f b' ops H2 (lstep (S f) b' l' o)) as [M1 M2].
-    apply (IH H2); [|exact Br | exact Bs]. apply (quiet_step_sim dr ds de dc f b b' Wr Ws); try assumption; lia.
+    destruct (quiet_run_mono f b' ops H2 (lstep (S f) b' l' o)) as (M1 & M2 & M3).
+    apply (IH H2); [|exact Br | exact Bs | exact Be]. apply (quiet_step_sim dr ds de dc f b b' Wr Ws We); try assumption; lia.
   Qed.
 End Local.
